@@ -109,4 +109,10 @@ TEXT = {
   "note": "partial: lock discipline + deadlock freedom over an extracted table (sound relative to the translator's syntactic rules); no theorem about stale reads across lock releases; Go memory model not formalised",
   "technique": "Coq proof (Eraser-style lock-discipline and lock-order theorems over an abstract mutex semantics) instantiated on a table regenerated from source by a go/ast translator + race-detector stress runs",
  },
+ "C15": {
+  "level": "Theorems over the model of the ledger codecs (encoding/json struct semantics on JSON trees, parametric in the hash): for outputs, inputs, input infos, utxos, transactions, blocks, requests and block lists, decoding the encoding of a well-formed value returns it; every successfully decoded value is well-formed, so re-encoding is a fixpoint (byte-stable) and the receiver hashes the same block bytes; a decoded transaction's id is the hash of its inputs, outputs and timestamp and any other id is rejected; the rendering of the id body is injective, so transactions differing in any of those fields have different ids or exhibit a hash collision; the endpoint table regenerated from source binds each of the seven endpoint names to the handler and client method it is named for.",
+  "ref": "DESIGN.md section 4, C15",
+  "note": "partial below the JSON tree (Go's lexer/printer are compared with the model byte for byte on generated values, not proved) and for the transport framing (exercised over loopback TCP); trusted: Coq kernel, extraction, OCaml JSON reader, harness",
+  "technique": "Coq proof (round-trip, decoder image, injectivity of the printer on id bodies; finite table check on a regenerated table) + differential correspondence on bytes, hashes and decoder verdicts + real TCP round",
+ },
 }
